@@ -397,6 +397,8 @@ impl Driver {
         let hit = core.disk.disarm();
         ev["ret"] = ret;
         ev["hit"] = json!(hit);
+        // C13: a failed call announces nothing
+        ev["ev"] = core.drain();
         // the instance is dropped; the same storage is opened again without faults
         let res = core.reopen();
         ev["open"] = open_json(&res);
